@@ -62,10 +62,15 @@ StatementHolds == \A c \in Cases : AnnouncedOK(c) /\ ExistingFails(c) /\ Replace
 
 \* ---- zip members (directory mode) ----------------------------------------------------------------------------
 \* class of a member path relative to the extraction directory after normalisation
-MemberClasses == {"inside", "inside-nested", "dotdot-escape", "absolute", "nested-escape", "inside-via-dotdot", "self"}
+\* "via-symlink-*": a member stored as a symbolic link (unix mode S_IFLNK) pointing out of the destination - absolutely, by
+\* "..", or at a sibling - followed by a member whose path leads through it
+MemberClasses == {"inside", "inside-nested", "dotdot-escape", "absolute", "nested-escape", "inside-via-dotdot", "self",
+                  "via-symlink-abs", "via-symlink-dotdot", "via-symlink-sibling"}
 \* a member may be written only beneath the destination; any other member must abort the transfer
 MemberVerdict(mc) == IF mc \in {"inside", "inside-nested"} THEN "extract"
                      ELSE IF mc = "inside-via-dotdot" THEN "extract-or-abort"     \* "a/../b": stays inside either way
+                     \* a link member may be written out as a plain file or refused; what leads through it must not land outside
+                     ELSE IF mc \in {"via-symlink-abs", "via-symlink-dotdot", "via-symlink-sibling"} THEN "extract-or-abort"
                      ELSE "abort"
 MembersSafe == \A mc \in MemberClasses : MemberVerdict(mc) = "extract" => mc \in {"inside", "inside-nested"}
 
